@@ -10,7 +10,7 @@ ALL_TYPES = ['**kern', '**text', '**dynam', '**dyn', '**harm', '**mxhm', '**fing
 DEFAULT = dict(
     types=ALL_TYPES, min_spines=1, max_spines=4, kern_weight=3, comments=True, global_comments=True, splits=True,
     partial_term=True, chords=True, acc=True, sigs=True, grace=True, rest_in_chord=True, sep_chars=False,
-    signatures=True, supported_clefs_only=False, others=True, force_clef=False, max_body=10, max_sub=3, max_width=7,
+    signatures=True, supported_clefs_only=False, others=True, force_clef=False, min_body=1, max_body=10, max_sub=3, max_width=7,
     barlines=True, final_barline=True, numbered_bars=False, null_weight=2, interp_rows=True, rule_iv=True,
     sig_in_split=False, adjacent_joins=True, ext_sigs=False, force_kern=True, hidden_bars=False,
     chord_optional_dur=False,
@@ -290,7 +290,7 @@ def documents(draw, P):
         for _ in range(draw(st.integers(0, 3))):
             rows.append(_row([_interp_cell(draw, P, paths.typ(k)) for k in range(len(paths.sp))]))
     state = {'bars': 0}
-    for _ in range(draw(st.integers(1, P['max_body']))):
+    for _ in range(draw(st.integers(P['min_body'], max(P['min_body'], P['max_body'])))):
         _event(draw, P, paths, rows, state)
     if P['final_barline'] and P['barlines'] and draw(st.integers(0, 2)):
         rows.append(_row([{'k': 'bar', 't': '==', 'e': '==', 'cat': 'BARLINES'} for _ in paths.sp]))
@@ -306,7 +306,7 @@ def documents(draw, P):
 MEASURE_DEFAULT = dict(
     max_spines=3, others=False, other_types=['**text', '**dynam', '**harm'], splits=True, rejoin_before_bar=True,
     sig_changes=False, same_sig_kinds=True, max_measures=6, chords=True, comments=True, tandems=True,
-    split_across_bar=False, hidden_bars=True, sig_after_bar=False, quiet_spines=False,
+    split_across_bar=False, hidden_bars=True, sig_after_bar=False, quiet_spines=False, partial_term=False,
 )
 
 
@@ -394,8 +394,9 @@ def measure_documents(draw, MP):
         b = draw(G.barlines(number=barno, hidden=MP['hidden_bars']))
         rows.append(_row([dict(b) for _ in range(width())]))
         quiet[0] = None
-        if MP['quiet_spines'] and nk >= 2 and not open_split and draw(st.integers(0, 2)) == 0:
-            quiet[0] = draw(st.sampled_from([i for i, t in enumerate(types) if t == KERN]))
+        live_kern = sorted({paths.sp[k] for k in range(width()) if paths.typ(k) == KERN})
+        if MP['quiet_spines'] and len(live_kern) >= 2 and not open_split and draw(st.integers(0, 2)) == 0:
+            quiet[0] = draw(st.sampled_from(live_kern))
         if MP['sig_after_bar'] and draw(st.integers(0, 2)) == 0:
             # a signature change directly after the barline (clefs twice as often as the others)
             kind = draw(st.sampled_from(['clef', 'clef', 'key', 'time', 'meter']))
@@ -472,6 +473,15 @@ def measure_documents(draw, MP):
                         cells.append(G.nullinterp_cell())
                 if any(c['k'] == 'interp' for c in cells):
                     rows.append(_row(cells))
+            elif x == 10 and MP['partial_term'] and not open_split and len(set(paths.sp)) >= 2 and len(paths.sp) == len(set(paths.sp)) \
+                    and sum(1 for k in range(width()) if paths.typ(k) == KERN) >= 2:
+                # one spine ends early (at most down to one remaining **kern spine); the others go on
+                ks = [k for k in range(width()) if paths.typ(k) == KERN]
+                k0 = draw(st.sampled_from(ks))
+                if quiet[0] == paths.sp[k0]:
+                    quiet[0] = None
+                rows.append(_row([G.op_cell('*-') if k == k0 else G.nullinterp_cell() for k in range(width())]))
+                paths.sp = [s_ for k, s_ in enumerate(paths.sp) if k != k0]
             elif x == 4 and MP['comments']:
                 rows.append(_row([draw(G.field_comments()) for _ in range(width())]))
             elif x == 5 and MP['tandems']:
